@@ -1,33 +1,73 @@
 """C06 - batching / broadcasting / views are transparent; pure ops never mutate inputs."""
-import copy, importlib, itertools, math, warnings
+import copy, importlib, itertools, math, os, warnings
 import numpy as np
 import torch
 import pypose as pp
 from hypothesis import strategies as st
 
-from ..core import Sub, dhash
+from ..core import Sub, dhash, NPROC
 from ..ref import lie as R
 from .. import tu, gen
 
 PROPERTY = "C06"
-RULE = ("broadcast_binary / broadcast_unary: EXHAUSTIVE enumeration of lshapes with extents {0,1,2,3} (quick: rank<=2, 21 shapes, all "
-        "broadcastable ordered pairs; thorough: rank<=3, 85 shapes) x 4 group types (8 ltypes for unary ops) x binary ops {@, *, Act3, "
-        "Act4, Adj, AdjT, Jinvp, Retr, +} / unary ops {Exp, Log, Inv, matrix, rotation, translation, scale, euler, Jr, tensor, "
-        "identity_like, randn_like}: the batched result must equal the op applied item by item to unbatched elements under torch "
-        "broadcasting (8 eps), with the documented Python type, ltype, lshape = broadcast shape, dtype.  handled: Hypothesis programs of "
+RULE = ("broadcast_binary: ordered pairs of lshapes with extents {0,1,2,3} that torch can broadcast.  THOROUGH tier: the full stated box "
+        "(rank<=3: 85 shapes, 2479 pairs) x 4 group types, exhaustive.  QUICK tier: the full rank<=2 sub-box (21 shapes, 231 pairs) x 4 group "
+        "types PLUS a VERIF_SEED-dependent sample of 120 of the 2248 pairs with a rank-3 operand (80 with a non-empty, 40 with an empty "
+        "result; one hash-chosen group type each): NOT exhaustive for the stated box, and the evidence says so (exhaustive=false in quick).  "
+        "Ops with their own item-by-item reference: group-left {@ (its items also serve *), Act3, Act4, Adj, AdjT, Jinvp, Retr, + (Tensor of "
+        "algebra width)}, algebra-left {+ Tensor} and, by the case hash, one of add(alpha=) with a group / an algebra element on the left "
+        "and a Tensor of GROUP width (documented: extra trailing entries ignored), alpha in {0.5, -1.5, 2, 3}.  The other documented "
+        "spellings of the same op (pp.Mul / pp.mul / x.mul, pp.Act / x*p / x@p / pp.mul(x,p), pp.Adj / Adj(Tensor), pp.AdjT, pp.Jinvp, "
+        "pp.Retr, pp.add / x.add) are called on the batched operands and compared with the same item-by-item reference: all of them in "
+        "the thorough tier, in quick one spelling for every other op of a case (rotating with the case hash; labels spelled:*).  "
+        "broadcast_unary: THOROUGH all 85 lshapes of the box x 8 ltypes (exhaustive); QUICK all 85 lshapes, the 21 of rank<=2 with all 8 "
+        "ltypes, the 64 of rank 3 with one group and one algebra type each (balanced, 16 per type; exhaustive=false).  Unary ops {Exp, Log, "
+        "Inv, matrix, rotation, translation, scale, euler, Jr (SO3/so3), tensor, identity_like, randn_like, algebra * Number} with the "
+        "functional forms pp.Exp, pp.Log, pp.Inv, pp.matrix, pp.rotation, pp.translation, pp.scale, pp.euler, pp.tensor, pp.Jr, pp.mul "
+        "compared with the same reference (same rotation rule); translation() / scale() of types without that part must be the documented "
+        "zeros / ones of shape lshape+(3,) / lshape+(1,); lshape is the torch.Size of the batch dims; lview(-1) / lview(*reversed lshape) "
+        "hold the items in C order.  In both: the batched result must equal the op applied item by item to unbatched elements under torch "
+        "broadcasting (8 eps), with the documented Python type, ltype, lshape = broadcast shape, dtype, device (cpu); for an EMPTY batch "
+        "the trailing shape must be the one the op gives for a single unbatched item of the same types.  handled: Hypothesis programs of "
         "1..4 calls drawn from a template for EVERY name in HANDLED_FUNCTIONS (arguments keep the last dimension intact) applied in "
-        "parallel to a LieTensor and to its plain tensor: every output must be a LieTensor of the same ltype with bit-identical data; "
-        "pp.Parameter round trips (deepcopy, clone, detach, to).  nomutate: a table of public callables (LieTensor ops, pp.* functions, "
-        "metrics, kernels, correctors, solvers, module forwards) called on generated arguments; every tensor argument is snapshotted and "
-        "compared bitwise afterwards.  restore: a function that performs k LieTensor ops then raises (4 exception types) under "
-        "pp.retain_ltype(), pp.func.jacrev, nested and repeated: the three patched torch attributes must be the ORIGINAL objects "
-        "afterwards and plain torch.func.jacrev still works.  Non-trivial: shapes differ with an expanded extent-1 dim or an empty dim; "
-        "programs that change rank or reorder batch dims; calls with >= 1 tensor argument of >= 2 elements; k >= 1.")
-ASSUMPTIONS = ["cpu only (no other device in the sandbox)",
+        "parallel to a LieTensor (rank 0..3, extents 0..3 with 0 in one dim of ten, so empty LieTensors are included) and to its plain "
+        "tensor: every output must be a LieTensor of the same ltype with bit-identical data; pp.Parameter round trips (deepcopy, clone, "
+        "detach, to).  handled_table: every name x 8 ltypes on a (2,3,2) batch and on three empty batches.  nomutate: a table of public "
+        "callables (LieTensor ops and their pp.* forms, converters, metrics, kernels, correctors, solvers, sparse block product, Jacobian "
+        "helpers modjac / modjacrev / pp.func.jacrev, module forwards incl. MPC) called on freshly generated arguments; every tensor "
+        "argument is snapshotted and compared bitwise afterwards; a table call that raises is a failure (every entry works on valid "
+        "arguments).  restore: a function that performs k LieTensor ops and then fails - by a user raise (4 exception types), INSIDE a "
+        "pypose op (assert in Act, broadcast error in Mul, Log of an algebra element) or in the BACKWARD / vjp phase (custom autograd "
+        "Function whose backward raises; plain autograd backward inside the context for the non-jacrev modes) - under pp.retain_ltype(), "
+        "pp.func.jacrev, torch.func.jacrev inside retain_ltype, nested and repeated: the fault must propagate (and nothing may raise when "
+        "no fault is injected), the three patched torch attributes must be the ORIGINAL objects afterwards and plain torch.func.jacrev "
+        "still works.  Non-trivial: shapes differ with an expanded extent-1 dim or an empty dim; programs that change rank, reorder batch "
+        "dims or run on an empty LieTensor; calls with >= 1 tensor argument of >= 2 elements; k >= 1.")
+ASSUMPTIONS = ["cpu only (no other device in the sandbox): 'device' is asserted to be the operands' device, which is always cpu here",
                "functions that cannot keep the last dimension (masked_select, take) are outside the statement: only data equality is checked",
-               "module buffers / internal state are not 'arguments' (only tensor arguments must stay unchanged)"]
+               "module buffers / internal state are not 'arguments' (only tensor arguments must stay unchanged; for modjac the parameters "
+               "of the model passed as argument are included)",
+               "binary ops whose left operand is a Lie algebra element: only + Tensor / add(alpha=) (documented in pp.add) and * Number "
+               "(documented in pp.mul) exist; Act/Adj/AdjT/Jinvp/Retr/@ of an algebra element are not documented operations",
+               "dtype of a case is hash-determined (float32 / float64 in equal shares)"]
+
+# defects found by this module (none open any more; while a key is listed below the failure is a label instead of a violation):
+#   lview_size_arg: LieTensor.lview documents `shape (torch.Size or int...)` but x.lview(torch.Size([..])) raises TypeError
+#                   (lview does `self.view(*shape + self.ltype.dimension)`, i.e. (Size([..]), d) instead of (.., d)).
+KNOWN_OPEN = set()      # lview_size_arg: known_findings F25, repaired in /repo (92c5e27) - asserted
 
 EXT = (0, 1, 2, 3)
+R3_QUICK = (80, 40)      # quick tier: sampled rank-3 pairs with a non-empty / an empty broadcast result
+
+
+class _TierMap(dict):
+    """tier -> value that remembers which tier the runner asked for: the runner reads `sub.exhaustive` without a tier, and the
+    quick tier of broadcast_binary is not exhaustive for the stated box"""
+    last = None
+
+    def __getitem__(self, k):
+        _TierMap.last = k
+        return dict.__getitem__(self, k)
 
 
 def shapes(max_rank):
@@ -35,6 +75,23 @@ def shapes(max_rank):
     for r in range(1, max_rank + 1):
         out += list(itertools.product(EXT, repeat=r))
     return out
+
+
+def pairs(max_rank):
+    shs = shapes(max_rank)
+    out = []
+    for sx in shs:
+        for sy in shs:
+            try:
+                o = torch.broadcast_shapes(sx, sy)
+            except RuntimeError:
+                continue
+            out.append((sx, sy, tuple(o)))
+    return out
+
+
+def _t(x):
+    return x.tensor() if isinstance(x, pp.LieTensor) else x
 
 
 def _rand_group(lt, shape, rs, dtype):
@@ -51,6 +108,31 @@ def _rand_alg(lt, shape, rs, dtype, scale=0.7):
     if lt in ("rxso3", "sim3"):
         d[:, -1] *= 0.3
     return pp.LieTensor(torch.tensor(d, dtype=tu.TD[dtype]).reshape(tuple(shape) + (R.ADIM[lt],)), ltype=tu.LT[lt])
+
+
+def _rand_lie(lt, shape, rs, dtype):
+    return _rand_group(lt, shape, rs, dtype) if lt in R.GROUPS else _rand_alg(lt, shape, rs, dtype)
+
+
+_REF0 = {}
+
+
+def _ref0(key, f, operands, dtype):
+    """the op applied to ONE unbatched item per operand (same ltypes / last dimensions): fixes the trailing shape of the result
+    when the batch itself is empty.  Depends on (op, ltypes, dtype) only: computed once per process."""
+    if key not in _REF0:
+        _REF0[key] = f(*_protos(operands, np.random.RandomState(0), dtype))
+    return _REF0[key]
+
+
+def _protos(operands, rs, dtype):
+    out = []
+    for o in operands:
+        if isinstance(o, pp.LieTensor):
+            out.append(_rand_lie(tu.LTNAME[o.ltype], [], rs, dtype))
+        else:
+            out.append(torch.tensor(rs.randn(o.shape[-1]), dtype=tu.TD[dtype]))
+    return out
 
 
 def _itemwise(f, out_shape, operands):
@@ -70,7 +152,9 @@ def _itemwise(f, out_shape, operands):
     return res
 
 
-def _compare(rec, what, got, items, out_shape, dtype, want_ltype, key):
+def _compare(rec, what, got, items, ref0, out_shape, dtype, want_ltype, key, device=torch.device("cpu")):
+    """`items`: the op applied item by item (C order, may be empty); `ref0`: the op applied to ONE unbatched item (items[0], or a
+    reference item of the same types when the batch is empty) - it fixes the trailing shape"""
     eps = tu.EPS[dtype]
     if want_ltype is not None:
         if not rec.check(isinstance(got, pp.LieTensor) and got.ltype == tu.LT[want_ltype], "type:" + key, "%s returned %s/%s, expected LieTensor %s" % (what, type(got).__name__, getattr(got, "ltype", None), want_ltype)):
@@ -79,44 +163,58 @@ def _compare(rec, what, got, items, out_shape, dtype, want_ltype, key):
         if not rec.check(isinstance(got, torch.Tensor) and not isinstance(got, pp.LieTensor), "type:" + key, "%s returned %s, expected a plain Tensor" % (what, type(got).__name__)):
             return
     rec.check(got.dtype == tu.TD[dtype], "dtype:" + key, "%s returned dtype %s" % (what, got.dtype))
-    g = got.tensor() if isinstance(got, pp.LieTensor) else got
+    rec.check(got.device == device, "device:" + key, "%s returned device %s, operands are on %s" % (what, got.device, device))
+    g = _t(got)
+    tail = tuple(_t(ref0).shape)
+    want = tuple(out_shape) + tail
+    if not rec.check(tuple(g.shape) == want, ("shape:" if items else "shape_empty:") + key, "%s: shape %s, expected %s%s" % (what, tuple(g.shape), want, "" if items else " (empty batch; one unbatched item gives %s)" % (tail,))):
+        return
+    if want_ltype is not None:
+        rec.check(isinstance(got.lshape, torch.Size) and tuple(got.lshape) == tuple(out_shape), "lshape:" + key, "%s: lshape %s, expected %s" % (what, tuple(got.lshape), tuple(out_shape)))
     if items:
-        first = items[0].tensor() if isinstance(items[0], pp.LieTensor) else items[0]
-        tail = tuple(first.shape)
-    else:
-        tail = None
-    if tail is not None:
-        if not rec.check(tuple(g.shape) == tuple(out_shape) + tail, "shape:" + key, "%s: shape %s, expected %s" % (what, tuple(g.shape), tuple(out_shape) + tail)):
-            return
-        ref = torch.stack([(i.tensor() if isinstance(i, pp.LieTensor) else i) for i in items], 0).reshape(tuple(out_shape) + tail)
+        ref = torch.stack([_t(i) for i in items], 0).reshape(want)
         tol = 8 * eps * max(1.0, float(ref.abs().max()))
         err = float((g - ref).abs().max())
         rec.notes["bc"] = max(rec.notes.get("bc", 0), err / tol)
+        rec.notes["bc:" + key.split(":")[0]] = max(rec.notes.get("bc:" + key.split(":")[0], 0), err / tol)      # per op (calibration)
         rec.check(err <= tol, "value:" + key, lambda: "%s: batched result differs from item-by-item application by %.3g (tol %.3g)" % (what, err, tol))
-    else:
-        # empty batch: only the batch part of the shape is determined
-        rec.check(tuple(g.shape[:len(out_shape)]) == tuple(out_shape) and g.numel() == 0, "shape_empty:" + key, "%s: shape %s for empty batch %s" % (what, tuple(g.shape), tuple(out_shape)))
 
 
-BIN = ("matmul", "mul", "Act3", "Act4", "Adj", "AdjT", "Jinvp", "Retr", "plus")
+BIN = ("matmul", "mul", "Act3", "Act4", "Adj", "AdjT", "Jinvp", "Retr", "plus", "alg_plus")       # ... and one of:
+BIN_ALPHA = ("add_alpha", "alg_add_alpha")          # add(alpha=) with a group / an algebra element on the left (chosen by the case hash)
+ALPHAS = (0.5, -1.5, 2, 3)
 
 
 class BroadcastBinary(Sub):
     name = "broadcast_binary"
     kind = "enum"
-    exhaustive = True
+    shards = _TierMap(quick=NPROC, thorough=NPROC)
     budget_s = {"quick": 150.0, "thorough": 3000.0}
 
+    @property
+    def exhaustive(self):
+        # the stated box (rank <= 3) is enumerated completely in the thorough tier only; quick = rank <= 2 box + a rank-3 sample
+        return _TierMap.last == "thorough"
+
     def cases(self, tier):
-        shs = shapes(2 if tier == "quick" else 3)
-        for sx in shs:
-            for sy in shs:
-                try:
-                    out = torch.broadcast_shapes(sx, sy)
-                except RuntimeError:
-                    continue
+        # "spell": which of the other documented spellings of an op are called besides the method form - "all" of them (thorough; also the
+        # default of a replayed case without the key) or "rotate": for every other op of a case, ONE spelling each, chosen by
+        # the case hash, so that over the box every spelling still meets every kind of shape pair (quick: keeps the wall time)
+        if tier != "quick":
+            for sx, sy, _ in pairs(3):
                 for lt in R.GROUPS:
-                    yield {"sx": list(sx), "sy": list(sy), "ltype": lt}
+                    yield {"sx": list(sx), "sy": list(sy), "ltype": lt, "spell": "all"}
+            return
+        for sx, sy, _ in pairs(2):
+            for lt in R.GROUPS:
+                yield {"sx": list(sx), "sy": list(sy), "ltype": lt, "spell": "rotate"}
+        seed = int(os.environ.get("VERIF_SEED", "1") or "1")
+        r3 = [p for p in pairs(3) if max(len(p[0]), len(p[1])) == 3]
+        rs = np.random.RandomState(dhash("c06-rank3-sample|%d" % seed) % (2 ** 31))
+        for pool, n in (([p for p in r3 if 0 not in p[2]], R3_QUICK[0]), ([p for p in r3 if 0 in p[2]], R3_QUICK[1])):
+            for i in sorted(rs.choice(len(pool), n, replace=False)):
+                sx, sy, _ = pool[i]
+                yield {"sx": list(sx), "sy": list(sy), "ltype": R.GROUPS[dhash(repr((sx, sy, seed))) % 4], "spell": "rotate"}
 
     def oracle(self, case, rec):
         sx, sy, lt = case["sx"], case["sy"], case["ltype"]
@@ -130,40 +228,84 @@ class BroadcastBinary(Sub):
         a = _rand_alg(alt, sy, rs, dtype)
         p3 = torch.tensor(rs.randn(*(tuple(sy) + (3,))), dtype=tu.TD[dtype])
         p4 = torch.tensor(rs.randn(*(tuple(sy) + (4,))), dtype=tu.TD[dtype])
+        V = _rand_alg(alt, sx, rs, dtype)                                                       # algebra element as LEFT operand
+        ta = torch.tensor(0.7 * rs.randn(*(tuple(sy) + (R.ADIM[alt],))), dtype=tu.TD[dtype])     # plain Tensor of algebra width
+        tw = torch.tensor(0.5 * rs.randn(*(tuple(sy) + (R.GDIM[lt],))), dtype=tu.TD[dtype])      # ... of group width (documented: the rest is ignored)
+        al = ALPHAS[(h >> 8) % len(ALPHAS)]
         expanded = (sx != sy) and (any(e == 1 for e in sx + sy) or len(sx) != len(sy))
         if expanded or 0 in out:
             rec.nt((tuple(sx), tuple(sy), lt))
-        rec.label(lt, "rank%d" % len(out), "empty" if 0 in out else "nonempty")
-        X0, Y0, a0 = X.tensor().clone(), Y.tensor().clone(), a.tensor().clone()
+        rec.label(lt, "rank%d" % len(out), "empty" if 0 in out else "nonempty", "oprank%d" % max(len(sx), len(sy)), "alpha=%s" % al)
+        everything = (X, Y, a, p3, p4, V, ta, tw)
+        snaps = [_t(o).clone() for o in everything]
+        # op -> (method form, operands, expected ltype (None: plain Tensor), other documented spellings of the same op)
         table = {
-            "matmul": (lambda x, y: x @ y, (X, Y), lt), "mul": (lambda x, y: x * y, (X, Y), lt),
-            "Act3": (lambda x, p: x.Act(p), (X, p3), None), "Act4": (lambda x, p: x.Act(p), (X, p4), None),
-            "Adj": (lambda x, v: x.Adj(v), (X, a), alt), "AdjT": (lambda x, v: x.AdjT(v), (X, a), alt),
-            "Jinvp": (lambda x, v: x.Jinvp(v), (X, a), alt), "Retr": (lambda x, v: x.Retr(v), (X, a), lt),
-            "plus": (lambda x, v: x + v.tensor(), (X, a), lt),
+            "matmul": (lambda x, y: x @ y, (X, Y), lt, {"pp.Mul": lambda x, y: pp.Mul(x, y), "pp.mul": lambda x, y: pp.mul(x, y), "x.mul": lambda x, y: x.mul(y)}),
+            "mul": (lambda x, y: x * y, (X, Y), lt, {}),            # reference: the items of matmul (same product, `*` spelling)
+            "Act3": (lambda x, p: x.Act(p), (X, p3), None, {"pp.Act": lambda x, p: pp.Act(x, p), "x*p": lambda x, p: x * p, "x@p": lambda x, p: x @ p, "pp.mul": lambda x, p: pp.mul(x, p)}),
+            "Act4": (lambda x, p: x.Act(p), (X, p4), None, {"pp.Act": lambda x, p: pp.Act(x, p), "x*p": lambda x, p: x * p, "x@p": lambda x, p: x @ p}),
+            "Adj": (lambda x, v: x.Adj(v), (X, a), alt, {"pp.Adj": lambda x, v: pp.Adj(x, v), "Adj(Tensor)": lambda x, v: x.Adj(v.tensor())}),
+            "AdjT": (lambda x, v: x.AdjT(v), (X, a), alt, {"pp.AdjT": lambda x, v: pp.AdjT(x, v)}),
+            "Jinvp": (lambda x, v: x.Jinvp(v), (X, a), alt, {"pp.Jinvp": lambda x, v: pp.Jinvp(x, v)}),
+            "Retr": (lambda x, v: x.Retr(v), (X, a), lt, {"pp.Retr": lambda x, v: pp.Retr(x, v)}),
+            "plus": (lambda x, v: x + v.tensor(), (X, a), lt, {"pp.add": lambda x, v: pp.add(x, v.tensor()), "x.add": lambda x, v: x.add(v.tensor())}),
+            "add_alpha": (lambda x, t: x.add(t, alpha=al), (X, tw), lt, {"pp.add": lambda x, t: pp.add(x, t, alpha=al)}),
+            "alg_plus": (lambda v, t: v + t, (V, ta), alt, {"pp.add": lambda v, t: pp.add(v, t), "v.add": lambda v, t: v.add(t)}),
+            "alg_add_alpha": (lambda v, t: v.add(t, alpha=al), (V, tw), alt, {"pp.add": lambda v, t: pp.add(v, t, alpha=al)}),
         }
-        for op in BIN:
-            f, operands, wl = table[op]
+        rotate = case.get("spell", "all") == "rotate"
+        for i, op in enumerate(BIN + (BIN_ALPHA[(h >> 12) % 2],)):
+            rec.label("op:" + op) if op in BIN_ALPHA else None
+            f, operands, wl, aliases = table[op]
+            what = "%s on lshapes %s,%s (%s)" % (op, sx, sy, lt)
             with rec.sut(op):
                 got = f(*operands)
-                items = _itemwise(f, out, operands)
-            _compare(rec, "%s on lshapes %s,%s (%s)" % (op, sx, sy, lt), got, items, out, dtype, wl, op)
-        rec.check(torch.equal(X.tensor(), X0) and torch.equal(Y.tensor(), Y0) and torch.equal(a.tensor(), a0), "mutates_input", "a binary op changed an operand")
+                if op != "mul":              # x * y and x @ y are the same product: one item-by-item reference serves both
+                    items = _itemwise(f, out, operands)
+                    ref0 = items[0] if items else _ref0(("bin", op, lt, dtype), f, operands, dtype)
+            _compare(rec, what, got, items, ref0, out, dtype, wl, op)
+            names = sorted(aliases)
+            if rotate and names:             # every other op of a case, one spelling each
+                names = [names[(h >> 20) % len(names)]] if ((h >> 16) + i) % 2 == 0 else []
+            for an in names:
+                fa = aliases[an]
+                rec.label("spelled:%s:%s" % (op, an))
+                with rec.sut("%s as %s" % (op, an)):
+                    ga = fa(*operands)
+                _compare(rec, "%s spelled %s" % (what, an), ga, items, ref0, out, dtype, wl, "%s:%s" % (op, an))
+        rec.check(all(torch.equal(_t(o), s) for o, s in zip(everything, snaps)), "mutates_input", "a binary op changed an operand")
 
 
 UNARY_G = ("Log", "Inv", "matrix", "rotation", "translation", "scale", "euler", "tensor", "identity_like", "randn_like", "Jr")
-UNARY_A = ("Exp", "Inv", "matrix", "rotation", "translation", "scale", "euler", "tensor", "identity_like", "randn_like", "Jr")
+UNARY_A = ("Exp", "Inv", "matrix", "rotation", "translation", "scale", "euler", "tensor", "identity_like", "randn_like", "Jr", "mul_number")
+UNARY_F = {"Log": lambda x: x.Log(), "Exp": lambda x: x.Exp(), "Inv": lambda x: x.Inv(), "matrix": lambda x: x.matrix(),
+           "rotation": lambda x: x.rotation(), "translation": lambda x: x.translation(), "scale": lambda x: x.scale(),
+           "euler": lambda x: x.euler(), "tensor": lambda x: x.tensor(), "Jr": lambda x: x.Jr(),
+           "identity_like": lambda x: pp.identity_like(x, dtype=x.dtype), "randn_like": lambda x: pp.randn_like(x, dtype=x.dtype)}
+UNARY_ALIAS = {"Log": lambda x: pp.Log(x), "Exp": lambda x: pp.Exp(x), "Inv": lambda x: pp.Inv(x), "matrix": lambda x: pp.matrix(x),
+               "rotation": lambda x: pp.rotation(x), "translation": lambda x: pp.translation(x), "scale": lambda x: pp.scale(x),
+               "euler": lambda x: pp.euler(x), "tensor": lambda x: pp.tensor(x), "Jr": lambda x: pp.Jr(x)}
+NO_TRANSLATION = ("SO3", "RxSO3")      # ... and their algebras: documented to return zero vector(s)
+NO_SCALE = ("SO3", "SE3")              # ... and their algebras: documented to return one(s)
 
 
 class BroadcastUnary(Sub):
     name = "broadcast_unary"
     kind = "enum"
-    exhaustive = True
+    shards = _TierMap(quick=NPROC, thorough=NPROC)
+
+    @property
+    def exhaustive(self):
+        # thorough: all 85 lshapes x 8 ltypes; quick: every lshape, but the 64 rank-3 lshapes with 2 of the 8 ltypes only
+        return _TierMap.last == "thorough"
 
     def cases(self, tier):
-        for sh in shapes(2 if tier == "quick" else 3):
-            for lt in R.GROUPS + R.ALGEBRAS:
-                yield {"shape": list(sh), "ltype": lt}
+        for sh in shapes(3):
+            lts = R.GROUPS + R.ALGEBRAS
+            if tier == "quick" and len(sh) == 3:       # one group and one algebra type per rank-3 lshape: every type gets 16 of the 64, with every extent in every position
+                lts = (R.GROUPS[sum(sh) % 4], R.ALGEBRAS[(sh[0] + 2 * sh[1] + 3 * sh[2] + 1) % 4])
+            for lt in lts:
+                yield {"shape": list(sh), "ltype": lt, "spell": "all" if tier != "quick" else "rotate"}      # see broadcast_binary
 
     def oracle(self, case, rec):
         sh, lt = case["shape"], case["ltype"]
@@ -171,35 +313,77 @@ class BroadcastUnary(Sub):
         dtype = "float64" if h % 2 == 0 else "float32"
         rs = np.random.RandomState(h % (2 ** 31))
         isg = lt in R.GROUPS
-        X = _rand_group(lt, sh, rs, dtype) if isg else _rand_alg(lt, sh, rs, dtype)
+        X = _rand_lie(lt, sh, rs, dtype)
         X0 = X.tensor().clone()
         if len(sh) >= 1:
             rec.nt((tuple(sh), lt))
         rec.label(lt, "rank%d" % len(sh), "empty" if 0 in sh else "nonempty")
         glt = lt if isg else R.GRP_OF[lt]
         alt = R.ALG_OF[lt] if isg else lt
-        for op in (UNARY_G if isg else UNARY_A):
+        c = (2.5, -0.75, 3)[(h >> 8) % 3]
+        rotate = case.get("spell", "all") == "rotate"
+        for i, op in enumerate(UNARY_G if isg else UNARY_A):
             if op == "Jr" and lt not in ("SO3", "so3"):
                 continue
-            if op == "translation" and glt in ("SO3", "RxSO3"):
-                continue      # documented: warns and returns zeros
-            if op == "scale" and glt in ("SO3", "SE3"):
-                continue      # documented: warns and returns ones
-            f = {"Log": lambda x: x.Log(), "Exp": lambda x: x.Exp(), "Inv": lambda x: x.Inv(), "matrix": lambda x: x.matrix(),
-                 "rotation": lambda x: x.rotation(), "translation": lambda x: x.translation(), "scale": lambda x: x.scale(),
-                 "euler": lambda x: x.euler(), "tensor": lambda x: x.tensor(), "Jr": lambda x: x.Jr(),
-                 "identity_like": lambda x: pp.identity_like(x, dtype=x.dtype), "randn_like": lambda x: pp.randn_like(x, dtype=x.dtype)}[op]
-            wl = {"Log": alt, "Exp": glt, "Inv": lt, "rotation": "SO3", "identity_like": lt, "randn_like": lt}.get(op)
+            aliases = {}
+            if op == "mul_number":        # documented in pp.mul: Lie Algebra * Number -> Lie Algebra
+                f = lambda x: x * c
+                aliases = {"pp.mul": lambda x: pp.mul(x, c), "x.mul": lambda x: x.mul(c)}
+            else:
+                f = UNARY_F[op]
+                if op in UNARY_ALIAS:
+                    aliases = {"pp." + op: UNARY_ALIAS[op]}
+            wl = {"Log": alt, "Exp": glt, "Inv": lt, "rotation": "SO3", "identity_like": lt, "randn_like": lt, "mul_number": lt}.get(op)
             with warnings.catch_warnings():
                 warnings.simplefilter("ignore")
                 with rec.sut(op):
                     got = f(X)
-                    items = _itemwise(f, sh, (X,)) if op != "randn_like" else None
+                    if op != "randn_like":
+                        items = _itemwise(f, sh, (X,))
+                        ref0 = items[0] if items else _ref0(("un", op, lt, dtype), f, (X,), dtype)
+                    names = sorted(aliases)
+                    if rotate and names:         # every other op of a case, one spelling each (see broadcast_binary)
+                        names = [names[(h >> 20) % len(names)]] if ((h >> 16) + i) % 2 == 0 else []
+                    galias = {an: aliases[an](X) for an in names}
             if op == "randn_like":
                 rec.check(isinstance(got, pp.LieTensor) and got.ltype == tu.LT[lt] and tuple(got.shape) == tuple(X.shape) and got.dtype == X.dtype,
                           "randn_like", "randn_like(%s %s): %s %s" % (lt, sh, getattr(got, "ltype", None), tuple(got.shape)))
                 continue
-            _compare(rec, "%s on lshape %s (%s)" % (op, sh, lt), got, items, sh, dtype, wl, op)
+            what = "%s on lshape %s (%s)" % (op, sh, lt)
+            _compare(rec, what, got, items, ref0, sh, dtype, wl, op)
+            for an, ga in galias.items():
+                rec.label("spelled:%s:%s" % (op, an))
+                _compare(rec, "%s spelled %s" % (what, an), ga, items, ref0, sh, dtype, wl, "%s:%s" % (op, an))
+            # a type without translation / scale: the documentation promises zero vector(s) / one(s)
+            if op == "translation" and glt in NO_TRANSLATION and isinstance(got, torch.Tensor):
+                rec.label("translation_zeros")
+                rec.check(tuple(got.shape) == tuple(sh) + (3,) and bool((got == 0).all()), "translation_zeros", "translation() of %s %s: shape %s, not all zeros of shape lshape+(3,)" % (lt, sh, tuple(got.shape)))
+            if op == "scale" and glt in NO_SCALE and isinstance(got, torch.Tensor):
+                rec.label("scale_ones")
+                rec.check(tuple(got.shape) == tuple(sh) + (1,) and bool((got == 1).all()), "scale_ones", "scale() of %s %s: shape %s, not all ones of shape lshape+(1,)" % (lt, sh, tuple(got.shape)))
+        # lshape / lview
+        d = X.shape[-1]
+        with rec.sut("lshape"):
+            ls = X.lshape
+        rec.check(isinstance(ls, torch.Size) and tuple(ls) == tuple(sh), "lshape", "lshape of a %s of lshape %s is %r" % (lt, sh, ls))
+        flat = X0.reshape(-1, d)
+        rev = list(reversed(sh)) if sh else [1, 1]
+        with rec.sut("lview"):
+            views = {"lview(-1)": (X.lview(-1), flat), "lview(*%s)" % rev: (X.lview(*rev), X0.reshape(tuple(rev) + (d,)))}
+        for nme, (v, want) in views.items():
+            if rec.check(isinstance(v, pp.LieTensor) and v.ltype == tu.LT[lt], "lview_type", "%s of a %s returned %s/%s" % (nme, lt, type(v).__name__, getattr(v, "ltype", None))):
+                rec.check(v.shape == want.shape and tuple(v.lshape) == tuple(want.shape[:-1]) and torch.equal(v.tensor(), want), "lview_data", "%s of a %s of lshape %s: shape %s, expected %s holding the items in C order" % (nme, lt, sh, tuple(v.shape), tuple(want.shape)))
+        if sh:
+            # documented: `shape (torch.Size or int...)`
+            try:
+                v = X.lview(torch.Size(rev))
+            except TypeError as e:
+                if "lview_size_arg" in KNOWN_OPEN:
+                    rec.label("known_open:lview_size_arg")
+                else:
+                    rec.fail("lview_size_arg", "lview(torch.Size(%s)) raised TypeError: %s" % (rev, str(e)[:200]))
+            else:
+                rec.check(isinstance(v, pp.LieTensor) and v.ltype == tu.LT[lt] and torch.equal(v.tensor(), X0.reshape(tuple(rev) + (d,))), "lview_size_data", "lview(torch.Size(%s)) of a %s: wrong type / items" % (rev, lt))
         rec.check(torch.equal(X.tensor(), X0), "mutates_input", "a unary op changed its operand")
 
 
@@ -215,6 +399,14 @@ def T_getitem(x, k):
     if n == 0 or kind == 0:
         return x[...]
     d0 = x.shape[0]
+    if d0 == 0:              # empty leading dim: slices, empty masks and empty index tensors are the only valid selections
+        if kind == 1:
+            return x[0:0]
+        if kind == 2:
+            return x[0:]
+        if kind == 3:
+            return x[torch.zeros(0, dtype=torch.bool)]
+        return x[torch.zeros(0, dtype=torch.int64)]
     if kind == 1:
         return x[k[1] % d0]
     if kind == 2:
@@ -300,6 +492,10 @@ def _setitem(x, k):
     return y
 
 
+NA = (RuntimeError, IndexError, ZeroDivisionError)      # raised by a template on the PLAIN tensor: not applicable to this shape
+EXTENTS = (0, 1, 1, 1, 2, 2, 2, 3, 3, 3)                # batch extents of the handled programs: 0 (empty LieTensor) in one dim of ten
+
+
 class Handled(Sub):
     fuzz_runs = 30000
     name = "handled"
@@ -312,7 +508,7 @@ class Handled(Sub):
         def s(draw):
             lt = draw(st.sampled_from(R.GROUPS + R.ALGEBRAS))
             rank = draw(st.integers(0, 3))
-            shape = [draw(st.integers(1, 3)) for _ in range(rank)]
+            shape = [draw(st.sampled_from(EXTENTS)) for _ in range(rank)]
             steps = [{"f": draw(st.sampled_from(names)), "k": [draw(st.integers(0, 1000)) for _ in range(3)]}
                      for _ in range(draw(st.integers(1, 4)))]
             return {"ltype": lt, "dtype": draw(st.sampled_from(gen.DTYPES)), "shape": shape, "steps": steps,
@@ -322,41 +518,45 @@ class Handled(Sub):
     def oracle(self, case, rec):
         lt, dtype = case["ltype"], case["dtype"]
         rs = np.random.RandomState(case["seed"])
-        x = _rand_group(lt, case["shape"], rs, dtype) if lt in R.GROUPS else _rand_alg(lt, case["shape"], rs, dtype)
+        x = _rand_lie(lt, case["shape"], rs, dtype)
         if case["param"]:
             x = pp.Parameter(x)
         t = x.tensor().detach().clone()
-        x0 = t.clone()
-        changed = False
+        changed = on_empty = False
+        rec.label("start:empty" if 0 in case["shape"] else "start:nonempty")
         for stp in case["steps"]:
             need, f = TEMPLATES[stp["f"]]
-            if _bd(x) < need or any(s == 0 for s in x.shape):
+            if _bd(x) < need:
                 rec.label("skipped_rank:" + stp["f"])
                 continue
+            empty = 0 in t.shape
             with warnings.catch_warnings():
                 warnings.simplefilter("ignore")
                 try:
-                    tt = f(t, stp["k"])      # the same program on the plain tensor (harness side)
-                except RuntimeError:         # e.g. view of a non-contiguous tensor: template not applicable here
+                    tt = f(t, stp["k"])      # the same program on the plain tensor (harness side, no pypose code involved)
+                except NA:                   # e.g. view of a non-contiguous tensor, an index into an empty dim: template not applicable here
                     rec.label("template_na:" + stp["f"])
                     continue
                 with rec.sut(stp["f"]):
                     y = f(x, stp["k"])
             rec.label("fn:" + stp["f"])
+            if empty:
+                rec.label("empty:fn:" + stp["f"])
+                on_empty = True
             if tt.shape[-1:] != t.shape[-1:]:
                 rec.label("lastdim_changed:" + stp["f"])   # outside the statement
                 return
             if tt.dim() != t.dim() or stp["f"] in ("permute", "transpose", "swapaxes", "swapdims", "movedim", "moveaxis"):
                 changed = True
             if not rec.check(isinstance(y, pp.LieTensor) and getattr(y, "ltype", None) == tu.LT[lt], "ltype_lost:" + stp["f"],
-                             "%s on a %s %s returned %s with ltype %s" % (stp["f"], lt, "Parameter" if case["param"] else "LieTensor", type(y).__name__, getattr(y, "ltype", None))):
+                             "%s on a %s %s of shape %s returned %s with ltype %s" % (stp["f"], lt, "Parameter" if case["param"] else "LieTensor", tuple(t.shape), type(y).__name__, getattr(y, "ltype", None))):
                 return
             if not rec.check(y.shape == tt.shape and torch.equal(y.tensor().detach(), tt.detach()), "data:" + stp["f"],
-                             "%s: data differs from the same call on the plain tensor" % stp["f"]):
+                             "%s on shape %s: data differs from the same call on the plain tensor" % (stp["f"], tuple(t.shape))):
                 return
             x, t = y, tt
-        if changed:
-            rec.nt((lt, tuple(s["f"] for s in case["steps"]), len(case["shape"]), case["param"]))
+        if changed or on_empty:
+            rec.nt((lt, tuple(s["f"] for s in case["steps"]), len(case["shape"]), case["param"], on_empty))
 
     def simplify(self, case):
         st_ = case["steps"]
@@ -367,8 +567,12 @@ class Handled(Sub):
             yield dict(case, param=False)
 
 
+EMPTY_SHAPES = ([2, 0, 3], [0, 2, 2], [2, 3, 0])
+
+
 class HandledTable(Sub):
-    """every HANDLED_FUNCTIONS name has a template (or a stated reason); loose functions keep the data; Parameter round trips"""
+    """every HANDLED_FUNCTIONS name has a template (or a stated reason); loose functions keep the data; Parameter round trips;
+    every template also on three empty batches"""
     name = "handled_table"
     kind = "enum"
     exhaustive = True
@@ -384,15 +588,16 @@ class HandledTable(Sub):
     def oracle(self, case, rec):
         nme, lt = case["f"], case["ltype"]
         rs = np.random.RandomState(dhash(nme + lt) % (2 ** 31))
-        x = _rand_group(lt, [2, 3, 2], rs, "float64") if lt in R.GROUPS else _rand_alg(lt, [2, 3, 2], rs, "float64")
+        x = _rand_lie(lt, [2, 3, 2], rs, "float64")
         rec.nt((nme, lt))
         if nme == "<parameter_roundtrips>":
-            p = pp.Parameter(x)
-            with rec.sut("Parameter round trips"):
-                outs = {"deepcopy": copy.deepcopy(p), "clone": p.clone(), "detach": p.detach(), "to": p.to(torch.float32), "getitem": p[0]}
-            for k, o in outs.items():
-                rec.check(isinstance(o, pp.LieTensor) and o.ltype == tu.LT[lt], "param:" + k, "Parameter.%s lost the ltype (%s)" % (k, type(o).__name__))
-            rec.check(isinstance(outs["deepcopy"], pp.Parameter) and torch.equal(outs["deepcopy"].tensor(), p.tensor()), "param:deepcopy_type", "deepcopy(Parameter) is not an equal Parameter")
+            for xx, tag in ((x, ""), (_rand_lie(lt, [2, 0], rs, "float64"), "_empty")):
+                p = pp.Parameter(xx)
+                with rec.sut("Parameter round trips"):
+                    outs = {"deepcopy": copy.deepcopy(p), "clone": p.clone(), "detach": p.detach(), "to": p.to(torch.float32), "getitem": p[0]}
+                for k, o in outs.items():
+                    rec.check(isinstance(o, pp.LieTensor) and o.ltype == tu.LT[lt], "param:" + k + tag, "Parameter.%s lost the ltype (%s)" % (k, type(o).__name__))
+                rec.check(isinstance(outs["deepcopy"], pp.Parameter) and torch.equal(outs["deepcopy"].tensor(), p.tensor()), "param:deepcopy_type" + tag, "deepcopy(Parameter) is not an equal Parameter")
             return
         if nme in SKIPPED:
             rec.label("skipped:" + nme)
@@ -409,17 +614,27 @@ class HandledTable(Sub):
         if not rec.check(nme in TEMPLATES, "no_template", "handled function %s has no call template in the harness" % nme):
             return
         _, f = TEMPLATES[nme]
-        for k in ([1, 2, 3], [4, 1, 0], [7, 5, 2]):
-            with warnings.catch_warnings():
-                warnings.simplefilter("ignore")
-                tt = f(x.tensor(), k)
-                with rec.sut(nme):
-                    y = f(x, k)
-            if tt.shape[-1:] != x.shape[-1:]:
-                continue
-            if rec.check(isinstance(y, pp.LieTensor) and getattr(y, "ltype", None) == tu.LT[lt], "ltype_lost:" + nme,
-                         "%s on a %s LieTensor returned %s with ltype %s" % (nme, lt, type(y).__name__, getattr(y, "ltype", None))):
-                rec.check(y.shape == tt.shape and torch.equal(y.tensor(), tt), "data:" + nme, "%s: data differs from the plain-tensor call" % nme)
+        reached = 0
+        for xx in [x] + [_rand_lie(lt, sh, rs, "float64") for sh in EMPTY_SHAPES]:
+            empty = 0 in xx.shape
+            for k in ([1, 2, 3], [4, 1, 0], [7, 5, 2]):
+                with warnings.catch_warnings():
+                    warnings.simplefilter("ignore")
+                    try:
+                        tt = f(xx.tensor(), k)
+                    except NA:
+                        if not empty:
+                            raise             # every template applies to the (2,3,2) batch: anything else is a harness error
+                        continue
+                    with rec.sut(nme):
+                        y = f(xx, k)
+                if tt.shape[-1:] != xx.shape[-1:]:
+                    continue
+                reached += empty
+                if rec.check(isinstance(y, pp.LieTensor) and getattr(y, "ltype", None) == tu.LT[lt], "ltype_lost:" + nme,
+                             "%s on a %s LieTensor of shape %s returned %s with ltype %s" % (nme, lt, tuple(xx.shape), type(y).__name__, getattr(y, "ltype", None))):
+                    rec.check(y.shape == tt.shape and torch.equal(y.tensor(), tt), "data:" + nme, "%s on shape %s: data differs from the plain-tensor call" % (nme, tuple(xx.shape)))
+        rec.label("on_empty:%d" % min(reached, 9))
 
 
 # ------------------------------------------------------------------------------------
@@ -433,11 +648,25 @@ def _nls():
     return M()
 
 
+class _PoseModel(torch.nn.Module):
+    """the model of the modjac docstring: one LieTensor parameter, forward(x) = Exp(p) * x"""
+    def __init__(self, p0):
+        super().__init__()
+        self.p = pp.Parameter(p0)
+
+    def forward(self, x):
+        return (self.p.Exp() * x).tensor()
+
+
 def _calls(rs, dt):
-    """name -> (callable, list of tensor args).  Every call gets fresh arguments."""
+    """name -> (callable, thunk making the list of tensor arguments).  Only the thunk of the selected call is evaluated, so every
+    call gets fresh arguments that are a pure function of (seed, dtype, name).
+    EVERY entry works on the current tree for valid (generated) arguments - a call that raises is reported as a failure by the
+    oracle; an entry that is documented to be unsupported for a type must not be added here."""
+    dn = "float64" if dt == torch.float64 else "float32"
     T = lambda *s: torch.tensor(rs.randn(*s), dtype=dt)
-    G = lambda lt, *s: _rand_group(lt, list(s), rs, "float64" if dt == torch.float64 else "float32")
-    A = lambda lt, *s: _rand_alg(lt, list(s), rs, "float64" if dt == torch.float64 else "float32")
+    G = lambda lt, *s: _rand_group(lt, list(s), rs, dn)
+    A = lambda lt, *s: _rand_alg(lt, list(s), rs, dn)
     spd = lambda n: (lambda M: M @ M.mT + n * torch.eye(n, dtype=dt))(T(n, n))
     pts = T(12, 3)
     K = torch.tensor([[300.0, 0, 160.0], [0, 300.0, 120.0], [0, 0, 1.0]], dtype=dt)
@@ -445,116 +674,179 @@ def _calls(rs, dt):
     calls = {}
     for lt in R.GROUPS:
         alt = R.ALG_OF[lt]
-        calls["%s.matmul" % lt] = (lambda x, y: x @ y, [G(lt, 3), G(lt, 3)])
-        calls["%s.Inv" % lt] = (lambda x: x.Inv(), [G(lt, 3)])
-        calls["%s.Log" % lt] = (lambda x: pp.Log(x), [G(lt, 3)])
-        calls["%s.Exp" % alt] = (lambda x: pp.Exp(x), [A(alt, 3)])
-        calls["%s.Act" % lt] = (lambda x, p: pp.Act(x, p), [G(lt, 3), T(3, 3)])
-        calls["%s.Act4" % lt] = (lambda x, p: x.Act(p), [G(lt, 3), T(3, 4)])
-        calls["%s.Adj" % lt] = (lambda x, a: pp.Adj(x, a), [G(lt, 3), A(alt, 3)])
-        calls["%s.AdjT" % lt] = (lambda x, a: pp.AdjT(x, a), [G(lt, 3), A(alt, 3)])
-        calls["%s.Jinvp" % lt] = (lambda x, a: pp.Jinvp(x, a), [G(lt, 3), A(alt, 3)])
-        calls["%s.Retr" % lt] = (lambda x, a: pp.Retr(x, a), [G(lt, 3), A(alt, 3)])
-        calls["%s.add" % lt] = (lambda x, a: pp.add(x, a), [G(lt, 3), T(3, R.ADIM[alt])])
-        calls["%s.plus" % lt] = (lambda x, a: x + a, [G(lt), T(3, R.ADIM[alt])])
+        calls["%s.matmul" % lt] = (lambda x, y: x @ y, lambda lt=lt, alt=alt: [G(lt, 3), G(lt, 3)])
+        calls["%s.Inv" % lt] = (lambda x: x.Inv(), lambda lt=lt, alt=alt: [G(lt, 3)])
+        calls["%s.Log" % lt] = (lambda x: pp.Log(x), lambda lt=lt, alt=alt: [G(lt, 3)])
+        calls["%s.Exp" % alt] = (lambda x: pp.Exp(x), lambda lt=lt, alt=alt: [A(alt, 3)])
+        calls["%s.Act" % lt] = (lambda x, p: pp.Act(x, p), lambda lt=lt, alt=alt: [G(lt, 3), T(3, 3)])
+        calls["%s.Act4" % lt] = (lambda x, p: x.Act(p), lambda lt=lt, alt=alt: [G(lt, 3), T(3, 4)])
+        calls["%s.Adj" % lt] = (lambda x, a: pp.Adj(x, a), lambda lt=lt, alt=alt: [G(lt, 3), A(alt, 3)])
+        calls["%s.AdjT" % lt] = (lambda x, a: pp.AdjT(x, a), lambda lt=lt, alt=alt: [G(lt, 3), A(alt, 3)])
+        calls["%s.Jinvp" % lt] = (lambda x, a: pp.Jinvp(x, a), lambda lt=lt, alt=alt: [G(lt, 3), A(alt, 3)])
+        calls["%s.Retr" % lt] = (lambda x, a: pp.Retr(x, a), lambda lt=lt, alt=alt: [G(lt, 3), A(alt, 3)])
+        calls["%s.add" % lt] = (lambda x, a: pp.add(x, a), lambda lt=lt, alt=alt: [G(lt, 3), T(3, R.ADIM[alt])])
+        calls["%s.plus" % lt] = (lambda x, a: x + a, lambda lt=lt, alt=alt: [G(lt), T(3, R.ADIM[alt])])
         # optional arguments matter too: alpha scaling of the increment must not be done on the caller's tensor
-        calls["%s.add_alpha" % lt] = (lambda x, a: pp.add(x, a, alpha=0.5), [G(lt, 3), T(3, R.ADIM[alt])])
-        calls["%s.method_add_alpha" % lt] = (lambda x, a: x.add(a, alpha=2), [G(lt), T(3, R.ADIM[alt])])
-        calls["%s.add_lie_alpha" % lt] = (lambda x, a: x.add(a, alpha=-1.5), [G(lt, 3), A(alt, 3)])
-        calls["%s.alg_add_alpha" % lt] = (lambda x, a: pp.add(x, a, alpha=3), [A(alt, 3), T(3, R.ADIM[alt])])
-        calls["%s.mul" % lt] = (lambda x, y: pp.mul(x, y), [G(lt, 3), G(lt, 3)])
-        calls["%s.matrix" % lt] = (lambda x: pp.matrix(x), [G(lt, 3)])
-        calls["%s.rotation" % lt] = (lambda x: pp.rotation(x), [G(lt, 3)])
-        calls["%s.euler" % lt] = (lambda x: pp.euler(x), [G(lt, 3)])
-        calls["%s.tensor" % lt] = (lambda x: pp.tensor(x), [G(lt, 3)])
-        calls["%s.quat2unit" % lt] = (lambda x: pp.quat2unit(x), [pp.LieTensor(G(lt, 3).tensor() * 1.5 if lt == "SO3" else G(lt, 3).tensor(), ltype=tu.LT[lt])])
-        calls["%s.cumprod" % lt] = (lambda x: pp.cumprod(x, 0), [G(lt, 5)])
-        calls["%s.cummul" % lt] = (lambda x: pp.cummul(x, 0, left=False), [G(lt, 5)])
-        calls["%s.cumops" % lt] = (lambda x: pp.cumops(x, 0, lambda a, b: a @ b), [G(lt, 5)])
-        calls["%s.identity_like" % lt] = (lambda x: pp.identity_like(x), [G(lt, 3)])
-        calls["%s.randn_like" % lt] = (lambda x: pp.randn_like(x), [G(lt, 3)])
-        calls["%s.from_matrix" % lt] = (lambda m, _lt=lt: pp.from_matrix(m, tu.LT[_lt]), [G(lt, 3).matrix()])
-        calls["%s.geodesic" % lt] = (lambda x, y: pp.geodesic_loss(x, y), [G(lt, 3), G(lt, 3)])
+        calls["%s.add_alpha" % lt] = (lambda x, a: pp.add(x, a, alpha=0.5), lambda lt=lt, alt=alt: [G(lt, 3), T(3, R.ADIM[alt])])
+        calls["%s.method_add_alpha" % lt] = (lambda x, a: x.add(a, alpha=2), lambda lt=lt, alt=alt: [G(lt), T(3, R.ADIM[alt])])
+        calls["%s.add_lie_alpha" % lt] = (lambda x, a: x.add(a, alpha=-1.5), lambda lt=lt, alt=alt: [G(lt, 3), A(alt, 3)])
+        calls["%s.alg_add_alpha" % lt] = (lambda x, a: pp.add(x, a, alpha=3), lambda lt=lt, alt=alt: [A(alt, 3), T(3, R.ADIM[alt])])
+        calls["%s.mul" % lt] = (lambda x, y: pp.mul(x, y), lambda lt=lt, alt=alt: [G(lt, 3), G(lt, 3)])
+        calls["%s.matrix" % lt] = (lambda x: pp.matrix(x), lambda lt=lt, alt=alt: [G(lt, 3)])
+        calls["%s.rotation" % lt] = (lambda x: pp.rotation(x), lambda lt=lt, alt=alt: [G(lt, 3)])
+        calls["%s.euler" % lt] = (lambda x: pp.euler(x), lambda lt=lt, alt=alt: [G(lt, 3)])
+        calls["%s.tensor" % lt] = (lambda x: pp.tensor(x), lambda lt=lt, alt=alt: [G(lt, 3)])
+        calls["%s.quat2unit" % lt] = (lambda x: pp.quat2unit(x), lambda lt=lt, alt=alt: [pp.LieTensor(G(lt, 3).tensor() * 1.5 if lt == "SO3" else G(lt, 3).tensor(), ltype=tu.LT[lt])])
+        calls["%s.cumprod" % lt] = (lambda x: pp.cumprod(x, 0), lambda lt=lt, alt=alt: [G(lt, 5)])
+        calls["%s.cummul" % lt] = (lambda x: pp.cummul(x, 0, left=False), lambda lt=lt, alt=alt: [G(lt, 5)])
+        calls["%s.cumops" % lt] = (lambda x: pp.cumops(x, 0, lambda a, b: a @ b), lambda lt=lt, alt=alt: [G(lt, 5)])
+        calls["%s.identity_like" % lt] = (lambda x: pp.identity_like(x), lambda lt=lt, alt=alt: [G(lt, 3)])
+        calls["%s.randn_like" % lt] = (lambda x: pp.randn_like(x), lambda lt=lt, alt=alt: [G(lt, 3)])
+        calls["%s.from_matrix" % lt] = (lambda m, _lt=lt: pp.from_matrix(m, tu.LT[_lt]), lambda lt=lt, alt=alt: [G(lt, 3).matrix()])
+        calls["%s.geodesic" % lt] = (lambda x, y: pp.geodesic_loss(x, y), lambda lt=lt, alt=alt: [G(lt, 3), G(lt, 3)])
     q = G("SO3", 3)
-    calls["quat2unit_unnormalised"] = (lambda x: pp.quat2unit(x), [pp.LieTensor(q.tensor() * 2.0, ltype=pp.SO3_type)])
-    calls["so3.Jr"] = (lambda x: pp.Jr(x), [A("so3", 3)])
-    calls["euler2SO3"] = (lambda e: pp.euler2SO3(e), [T(3, 3)])
-    calls["vec2skew"] = (lambda v: pp.vec2skew(v), [T(3, 3)])
-    calls["mat2SO3"] = (lambda m: pp.mat2SO3(m), [G("SO3", 2).matrix()])
-    calls["cart2homo"] = (lambda p: pp.cart2homo(p), [T(4, 3)])
-    calls["homo2cart"] = (lambda p: pp.homo2cart(p), [T(4, 4) + 3.0])
-    calls["point2pixel"] = (lambda p, k: pp.point2pixel(p, k), [cam.clone(), K.clone()])
-    calls["point2pixel_ext"] = (lambda p, k, e: pp.point2pixel(p, k, e), [cam.clone(), K.clone(), pp.identity_SE3(dtype=dt)])
-    calls["pixel2point"] = (lambda px, d, k: pp.pixel2point(px, d, k), [T(8, 2), T(8).abs() + 1, K.clone()])
-    calls["reprojerr"] = (lambda p, px, k: pp.reprojerr(p, px, k), [cam.clone(), T(8, 2), K.clone()])
-    calls["knn"] = (lambda a, b: pp.knn(a, b, k=2), [T(6, 3), T(9, 3)])
-    calls["knn_opts"] = (lambda a, b: pp.knn(a, b, k=3, ord=1, largest=True, sorted=False), [T(6, 3), T(9, 3)])
-    calls["nbr_filter_mask"] = (lambda p: pp.nbr_filter(p, nbr=2, radius=1.5, pdim=2, return_mask=True), [pts.clone()])
-    calls["knn_filter_pdim"] = (lambda p: pp.knn_filter(p, k=2, pdim=2, ord=1), [pts.clone()])
-    calls["chspline_batch"] = (lambda p: pp.chspline(p, 0.3), [T(2, 5, 3)])
-    calls["bspline_extra"] = (lambda p: pp.bspline(p, 0.3, extrapolate=True), [G("SE3", 5)])
-    calls["svdstf_noscale"] = (lambda a, b: pp.svdstf(a, b, with_scale=False), [pts.clone(), T(12, 3)])
-    calls["reprojerr_ext"] = (lambda p, px, k, e: pp.reprojerr(p, px, k, e, reduction="sum"), [cam.clone(), T(8, 2), K.clone(), G("SE3")])
-    calls["svdtf"] = (lambda a, b: pp.svdtf(a, b), [pts.clone(), T(12, 3)])
-    calls["svdstf"] = (lambda a, b: pp.svdstf(a, b), [pts.clone(), T(12, 3)])
-    calls["nbr_filter"] = (lambda p: pp.nbr_filter(p, nbr=1, radius=2.0), [pts.clone()])
-    calls["voxel_filter"] = (lambda p: pp.voxel_filter(p, [1.0, 1.0, 1.0]), [pts.clone()])
-    calls["voxel_filter_random"] = (lambda p: pp.voxel_filter(p, [1.0, 1.0, 1.0], random=True), [pts.clone()])
-    calls["knn_filter"] = (lambda p: pp.knn_filter(p, k=2), [pts.clone()])
-    calls["knn_filter_radius"] = (lambda p: pp.knn_filter(p, k=1, radius=10.0), [pts.clone()])
-    calls["random_filter"] = (lambda p: pp.random_filter(p, 4), [pts.clone()])
-    calls["chspline"] = (lambda p: pp.chspline(p, 0.25), [T(5, 3)])
-    calls["bspline"] = (lambda p: pp.bspline(p, 0.25), [G("SE3", 6)])
-    calls["bmv"] = (lambda m, v: pp.bmv(m, v), [T(2, 3, 4), T(2, 4)])
-    calls["bvv"] = (lambda a, b: pp.bvv(a, b), [T(2, 3), T(2, 4)])
-    calls["bvmv"] = (lambda a, m, b: pp.bvmv(a, m, b), [T(2, 3), T(2, 3, 4), T(2, 4)])
-    calls["pm"] = (lambda v: pp.pm(v), [T(5)])
-    calls["hasnan"] = (lambda v: pp.hasnan(v), [T(5)])
+    calls["quat2unit_unnormalised"] = (lambda x: pp.quat2unit(x), lambda: [pp.LieTensor(q.tensor() * 2.0, ltype=pp.SO3_type)])
+    calls["so3.Jr"] = (lambda x: pp.Jr(x), lambda: [A("so3", 3)])
+    calls["euler2SO3"] = (lambda e: pp.euler2SO3(e), lambda: [T(3, 3)])
+    calls["vec2skew"] = (lambda v: pp.vec2skew(v), lambda: [T(3, 3)])
+    calls["mat2SO3"] = (lambda m: pp.mat2SO3(m), lambda: [G("SO3", 2).matrix()])
+    calls["cart2homo"] = (lambda p: pp.cart2homo(p), lambda: [T(4, 3)])
+    calls["homo2cart"] = (lambda p: pp.homo2cart(p), lambda: [T(4, 4) + 3.0])
+    calls["point2pixel"] = (lambda p, k: pp.point2pixel(p, k), lambda: [cam.clone(), K.clone()])
+    calls["point2pixel_ext"] = (lambda p, k, e: pp.point2pixel(p, k, e), lambda: [cam.clone(), K.clone(), pp.identity_SE3(dtype=dt)])
+    calls["pixel2point"] = (lambda px, d, k: pp.pixel2point(px, d, k), lambda: [T(8, 2), T(8).abs() + 1, K.clone()])
+    calls["reprojerr"] = (lambda p, px, k: pp.reprojerr(p, px, k), lambda: [cam.clone(), T(8, 2), K.clone()])
+    calls["knn"] = (lambda a, b: pp.knn(a, b, k=2), lambda: [T(6, 3), T(9, 3)])
+    calls["knn_opts"] = (lambda a, b: pp.knn(a, b, k=3, ord=1, largest=True, sorted=False), lambda: [T(6, 3), T(9, 3)])
+    calls["nbr_filter_mask"] = (lambda p: pp.nbr_filter(p, nbr=2, radius=1.5, pdim=2, return_mask=True), lambda: [pts.clone()])
+    calls["knn_filter_pdim"] = (lambda p: pp.knn_filter(p, k=2, pdim=2, ord=1), lambda: [pts.clone()])
+    calls["chspline_batch"] = (lambda p: pp.chspline(p, 0.3), lambda: [T(2, 5, 3)])
+    calls["bspline_extra"] = (lambda p: pp.bspline(p, 0.3, extrapolate=True), lambda: [G("SE3", 5)])
+    calls["svdstf_noscale"] = (lambda a, b: pp.svdstf(a, b, with_scale=False), lambda: [pts.clone(), T(12, 3)])
+    calls["reprojerr_ext"] = (lambda p, px, k, e: pp.reprojerr(p, px, k, e, reduction="sum"), lambda: [cam.clone(), T(8, 2), K.clone(), G("SE3")])
+    calls["svdtf"] = (lambda a, b: pp.svdtf(a, b), lambda: [pts.clone(), T(12, 3)])
+    calls["svdstf"] = (lambda a, b: pp.svdstf(a, b), lambda: [pts.clone(), T(12, 3)])
+    calls["nbr_filter"] = (lambda p: pp.nbr_filter(p, nbr=1, radius=2.0), lambda: [pts.clone()])
+    calls["voxel_filter"] = (lambda p: pp.voxel_filter(p, [1.0, 1.0, 1.0]), lambda: [pts.clone()])
+    calls["voxel_filter_random"] = (lambda p: pp.voxel_filter(p, [1.0, 1.0, 1.0], random=True), lambda: [pts.clone()])
+    calls["knn_filter"] = (lambda p: pp.knn_filter(p, k=2), lambda: [pts.clone()])
+    calls["knn_filter_radius"] = (lambda p: pp.knn_filter(p, k=1, radius=10.0), lambda: [pts.clone()])
+    calls["random_filter"] = (lambda p: pp.random_filter(p, 4), lambda: [pts.clone()])
+    calls["chspline"] = (lambda p: pp.chspline(p, 0.25), lambda: [T(5, 3)])
+    calls["bspline"] = (lambda p: pp.bspline(p, 0.25), lambda: [G("SE3", 6)])
+    calls["bmv"] = (lambda m, v: pp.bmv(m, v), lambda: [T(2, 3, 4), T(2, 4)])
+    calls["bvv"] = (lambda a, b: pp.bvv(a, b), lambda: [T(2, 3), T(2, 4)])
+    calls["bvmv"] = (lambda a, m, b: pp.bvmv(a, m, b), lambda: [T(2, 3), T(2, 3, 4), T(2, 4)])
+    calls["pm"] = (lambda v: pp.pm(v), lambda: [T(5)])
+    calls["hasnan"] = (lambda v: pp.hasnan(v), lambda: [T(5)])
     # metrics (timestamps are tensor arguments too)
     n = 12
     st1 = torch.arange(n, dtype=torch.float64) * 0.1
     st2 = st1 + 0.003
-    calls["ape"] = (lambda s1, p1, s2, p2: pp.metric.ape(s1, p1, s2, p2), [st1.clone(), G("SE3", n), st2.clone(), G("SE3", n)])
-    calls["ape_offset"] = (lambda s1, p1, s2, p2: pp.metric.ape(s1, p1, s2, p2, offset=0.004), [st1.clone(), G("SE3", n), st2.clone(), G("SE3", n)])
-    calls["rpe"] = (lambda s1, p1, s2, p2: pp.metric.rpe(s1, p1, s2, p2), [st1.clone(), G("SE3", n), st2.clone(), G("SE3", n)])
-    calls["rpe_offset"] = (lambda s1, p1, s2, p2: pp.metric.rpe(s1, p1, s2, p2, offset=-0.002), [st1.clone(), G("SE3", n), st2.clone(), G("SE3", n)])
+    calls["ape"] = (lambda s1, p1, s2, p2: pp.metric.ape(s1, p1, s2, p2), lambda: [st1.clone(), G("SE3", n), st2.clone(), G("SE3", n)])
+    calls["ape_offset"] = (lambda s1, p1, s2, p2: pp.metric.ape(s1, p1, s2, p2, offset=0.004), lambda: [st1.clone(), G("SE3", n), st2.clone(), G("SE3", n)])
+    calls["rpe"] = (lambda s1, p1, s2, p2: pp.metric.rpe(s1, p1, s2, p2), lambda: [st1.clone(), G("SE3", n), st2.clone(), G("SE3", n)])
+    calls["rpe_offset"] = (lambda s1, p1, s2, p2: pp.metric.rpe(s1, p1, s2, p2, offset=-0.002), lambda: [st1.clone(), G("SE3", n), st2.clone(), G("SE3", n)])
     # kernels / correctors / solvers
     ker = pp.optim.kernel
     for nme, kk in (("Huber", ker.Huber(1.0)), ("PseudoHuber", ker.PseudoHuber(1.0)), ("Cauchy", ker.Cauchy(1.0)), ("SoftLOne", ker.SoftLOne(1.0)),
                     ("Arctan", ker.Arctan(1.0)), ("Tolerant", ker.Tolerant(1.0, -0.5)), ("Scale", ker.Scale(0.5))):
-        calls["kernel." + nme] = (lambda x, _k=kk: _k(x), [T(6).abs() * 2])
+        calls["kernel." + nme] = (lambda x, _k=kk: _k(x), lambda: [T(6).abs() * 2])
     Rr, Jj = T(4, 3), T(12, 5)
-    calls["FastTriggs"] = (lambda r, j: pp.optim.corrector.FastTriggs(ker.Huber(1.0))(R=r, J=j), [Rr.clone(), Jj.clone()])
-    calls["Triggs"] = (lambda r, j: pp.optim.corrector.Triggs(ker.Cauchy(1.0))(R=r, J=j), [Rr.clone(), Jj.clone()])
+    calls["FastTriggs"] = (lambda r, j: pp.optim.corrector.FastTriggs(ker.Huber(1.0))(R=r, J=j), lambda: [Rr.clone(), Jj.clone()])
+    calls["Triggs"] = (lambda r, j: pp.optim.corrector.Triggs(ker.Cauchy(1.0))(R=r, J=j), lambda: [Rr.clone(), Jj.clone()])
     S = spd(5)
     sol = pp.optim.solver
-    calls["solver.PINV"] = (lambda a, b: sol.PINV()(a, b), [T(6, 4), T(6, 1)])
-    calls["solver.LSTSQ"] = (lambda a, b: sol.LSTSQ()(a, b), [T(6, 4), T(6, 1)])
-    calls["solver.Cholesky"] = (lambda a, b: sol.Cholesky()(a, b), [S.clone(), T(5, 1)])
-    calls["solver.CG"] = (lambda a, b: sol.CG()(a, b), [S.clone(), T(5, 1)])
-    calls["solver.CG_x0_M"] = (lambda a, b, x, m: sol.CG()(a, b, x=x, M=m), [S.clone(), T(5, 1), T(5, 1), torch.diag(1.0 / torch.diag(S)).clone()])
+    calls["solver.PINV"] = (lambda a, b: sol.PINV()(a, b), lambda: [T(6, 4), T(6, 1)])
+    calls["solver.LSTSQ"] = (lambda a, b: sol.LSTSQ()(a, b), lambda: [T(6, 4), T(6, 1)])
+    calls["solver.Cholesky"] = (lambda a, b: sol.Cholesky()(a, b), lambda: [S.clone(), T(5, 1)])
+    calls["solver.CG"] = (lambda a, b: sol.CG()(a, b), lambda: [S.clone(), T(5, 1)])
+    calls["solver.CG_x0_M"] = (lambda a, b, x, m: sol.CG()(a, b, x=x, M=m), lambda: [S.clone(), T(5, 1), T(5, 1), torch.diag(1.0 / torch.diag(S)).clone()])
     # modules
     N = 2
     Q, Rm, P = 0.01 * torch.eye(N, dtype=dt), 0.02 * torch.eye(N, dtype=dt), spd(N)
     for nme, cls in (("EKF", pp.module.EKF), ("UKF", pp.module.UKF), ("PF", pp.module.PF)):
-        calls["module." + nme] = (lambda x, y, u, p, q_, r_, _c=cls: _c(_nls().to(dt))(x, y, u, p, q_, r_), [T(N), T(N), T(N), P.clone(), Q.clone(), Rm.clone()])
+        calls["module." + nme] = (lambda x, y, u, p, q_, r_, _c=cls: _c(_nls().to(dt))(x, y, u, p, q_, r_), lambda: [T(N), T(N), T(N), P.clone(), Q.clone(), Rm.clone()])
     nsx, nu, Th = 3, 2, 4
     lti = lambda: pp.module.LTI(T(nsx, nsx) * 0.3, T(nsx, nu), torch.eye(nsx, dtype=dt), torch.zeros(nsx, nu, dtype=dt))
     Qc = torch.eye(nsx + nu, dtype=dt).repeat(1, Th, 1, 1)
-    calls["module.LQR"] = (lambda x0, qq, pv: pp.module.LQR(lti(), qq, pv, Th)(x0), [T(1, nsx), Qc.clone(), T(1, Th, nsx + nu)])
+    calls["module.LQR"] = (lambda x0, qq, pv: pp.module.LQR(lti(), qq, pv, Th)(x0), lambda: [T(1, nsx), Qc.clone(), T(1, Th, nsx + nu)])
     src = T(30, 3)
     Tt = G("SE3")
-    calls["module.ICP"] = (lambda s, t: pp.module.ICP()(s, t), [src.clone(), Tt.Act(src).clone()])
+    calls["module.ICP"] = (lambda s, t: pp.module.ICP()(s, t), lambda: [src.clone(), Tt.Act(src).clone()])
     P3 = T(10, 3) + torch.tensor([0, 0, 8.0], dtype=dt)
-    calls["module.EPnP"] = (lambda p, px, k: pp.module.EPnP()(p, px, k), [P3.clone(), pp.point2pixel(P3, K), K.clone()])
-    calls["module.IMU"] = (lambda d, g, a: pp.module.IMUPreintegrator().to(dt)(dt=d, gyro=g, acc=a), [torch.full((1, 5, 1), 0.01, dtype=dt), T(1, 5, 3), T(1, 5, 3)])
-    calls["geodesic_loss"] = (lambda x, y: pp.geodesic_loss(x, y), [G("SE3", 3), G("SO3", 3)])
+    calls["module.EPnP"] = (lambda p, px, k: pp.module.EPnP()(p, px, k), lambda: [P3.clone(), pp.point2pixel(P3, K), K.clone()])
+    calls["module.IMU"] = (lambda d, g, a: pp.module.IMUPreintegrator().to(dt)(dt=d, gyro=g, acc=a), lambda: [torch.full((1, 5, 1), 0.01, dtype=dt), T(1, 5, 3), T(1, 5, 3)])
+    calls["geodesic_loss"] = (lambda x, y: pp.geodesic_loss(x, y), lambda: [G("SE3", 3), G("SO3", 3)])
+    # ---- functional aliases / accessors / shape helpers that the table did not call before
+    for lt in R.GROUPS:
+        alt = R.ALG_OF[lt]
+        calls["%s.pp_Inv" % lt] = (lambda x: pp.Inv(x), lambda lt=lt, alt=alt: [G(lt, 3)])
+        calls["%s.pp_Mul" % lt] = (lambda x, y: pp.Mul(x, y), lambda lt=lt, alt=alt: [G(lt, 3), G(lt, 1)])
+        calls["%s.translation" % lt] = (lambda x: pp.translation(x), lambda lt=lt, alt=alt: [G(lt, 3)])
+        calls["%s.scale" % lt] = (lambda x: pp.scale(x), lambda lt=lt, alt=alt: [G(lt, 3)])
+        calls["%s.mul_points" % lt] = (lambda x, p: x * p, lambda lt=lt, alt=alt: [G(lt, 3), T(3, 3)])
+        calls["%s.lview" % lt] = (lambda x: x.lview(-1), lambda lt=lt, alt=alt: [G(lt, 2, 2)])
+        calls["%s.accessors" % alt] = (lambda a: (a.Inv(), a * 2.0, a.matrix(), a.rotation(), pp.translation(a), pp.scale(a), a.euler()), lambda lt=lt, alt=alt: [A(alt, 3)])
+        calls["%s.add_wide" % lt] = (lambda x, a: x + a, lambda lt=lt, alt=alt: [G(lt, 3), T(3, R.GDIM[lt])])
+    calls["SO3.Jr"] = (lambda x: pp.Jr(x), lambda: [G("SO3", 3)])
+    # converters (documented inputs: (*,3,3), (*,3,4) or (*,4,4))
+    calls["mat2SE3"] = (lambda m: pp.mat2SE3(m), lambda: [G("SE3", 3).matrix()])
+    calls["mat2SE3_3x4"] = (lambda m: pp.mat2SE3(m), lambda: [G("SE3", 3).matrix()[..., :3, :].clone()])
+    calls["mat2Sim3"] = (lambda m: pp.mat2Sim3(m), lambda: [G("Sim3", 3).matrix()])
+    calls["mat2Sim3_3x4"] = (lambda m: pp.mat2Sim3(m), lambda: [G("Sim3", 3).matrix()[..., :3, :].clone()])
+    calls["mat2RxSO3"] = (lambda m: pp.mat2RxSO3(m), lambda: [G("RxSO3", 3).matrix()])
+    calls["mat2RxSO3_3x3"] = (lambda m: pp.mat2RxSO3(m), lambda: [G("RxSO3", 3).matrix()[..., :3, :3].clone()])
+    calls["mat2SO3_nocheck"] = (lambda m: pp.mat2SO3(m, check=False), lambda: [G("SO3", 3).matrix() * 1.01])
+    # Jacobian helpers (the parameter of the model passed as argument counts as a tensor argument)
+    fn = pp.optim.functional
+
+    def _with_model(call):
+        def make():
+            m = _PoseModel(A("so3", 2))
+            x = G("SO3")
+            return [x, m.p, m]
+        return (lambda x, p, m: call(m, x)), make
+    calls["modjac"] = _with_model(lambda m, x: fn.modjac(m, x))
+    calls["modjac_flatten"] = _with_model(lambda m, x: fn.modjac(m, x, flatten=True))
+    calls["modjac_vectorize"] = _with_model(lambda m, x: fn.modjac(m, x, vectorize=True))
+
+    def _modjacrev(m, x):
+        with pp.retain_ltype():
+            return fn.modjacrev(m, x)
+    calls["modjacrev"] = _with_model(_modjacrev)
+    calls["func.jacrev"] = (lambda x, p: pp.func.jacrev(lambda a, b: a @ b)(x, p), lambda: [G("SE3", 1), T(1, 3)])
+    calls["func.jacrev_argnums"] = (lambda x, p: pp.func.jacrev(lambda a, b: a.Act(b), argnums=(0, 1))(x, p), lambda: [G("Sim3", 2), T(2, 3)])
+    calls["func.jacrev_chain"] = (lambda x, y: pp.func.jacrev(lambda a, b: (a.Inv() @ b).Log().tensor())(x, y), lambda: [G("SE3", 2), G("SE3", 2)])
+
+    # sparse block product (BSR x BSC)
+    def _blocks():
+        a, b = T(4, 6), T(6, 4)
+        a[:2, :3] = 0
+        b[3:, 2:] = 0
+        return [a.to_sparse_bsr((2, 3)), b.to_sparse_bsc((3, 2))]
+    calls["bsr_bsc_matmul"] = (lambda a, b: pp.sparse.bsr_bsc_matmul(a, b), _blocks)
+    # MPC on the LTI system of module.LQR
+    calls["module.MPC"] = (lambda x0, qq, pv, u0: pp.module.MPC(lti(), qq, pv, Th, stepper=pp.utils.ReduceToBason(steps=3, verbose=False))(0.1, x0, u_init=u0),
+                           lambda: [T(1, nsx), Qc.clone(), T(1, Th, nsx + nu), T(1, Th, nu)])
     return calls
+
+
+def _parts(a):
+    """the tensors that make up an argument (values and indices of a sparse compressed tensor)"""
+    if isinstance(a, pp.LieTensor):
+        a = a.tensor()
+    a = a.detach()
+    if a.layout in (torch.sparse_bsr, torch.sparse_csr):
+        return [a.crow_indices(), a.col_indices(), a.values()]
+    if a.layout in (torch.sparse_bsc, torch.sparse_csc):
+        return [a.ccol_indices(), a.row_indices(), a.values()]
+    return [a]
 
 
 class NoMutate(Sub):
     name = "nomutate"
-    n = {"quick": 1500, "thorough": 30000}
+    n = {"quick": 1800, "thorough": 36000}
 
     def strategy(self, tier):
         names = sorted(_calls(np.random.RandomState(0), torch.float64))
@@ -564,21 +856,29 @@ class NoMutate(Sub):
         dt = tu.TD[case["dtype"]]
         rs = np.random.RandomState(case["seed"])
         torch.manual_seed(case["seed"])
-        f, args = _calls(rs, dt)[case["name"]]
-        snaps = [(a.tensor() if isinstance(a, pp.LieTensor) else a).detach().clone() for a in args]
+        f, make = _calls(rs, dt)[case["name"]]
+        args = make()
+        targs = [a for a in args if isinstance(a, torch.Tensor)]       # (a model passed along for the call is not a tensor argument)
+        snaps = [[p.clone() for p in _parts(a)] for a in targs]
+        err = None
         with warnings.catch_warnings():
             warnings.simplefilter("ignore")
             try:
                 f(*args)
-            except Exception as e:       # what the call returns / whether it accepts the argument is another property's business
-                rec.label("call_raised:%s:%s" % (case["name"], type(e).__name__))
+            except Exception as e:       # reported below, after the arguments have been compared (a call may mutate and then raise)
+                err = e
         rec.label("call:" + case["name"])
-        if any(s.numel() >= 2 for s in snaps):
+        if any(p.numel() >= 2 for s in snaps for p in s):
             rec.nt((case["name"], case["dtype"]))
-        for i, (a, s) in enumerate(zip(args, snaps)):
-            cur = (a.tensor() if isinstance(a, pp.LieTensor) else a).detach()
-            same = cur.shape == s.shape and torch.equal(cur, s) or (cur.shape == s.shape and bool(((cur == s) | (cur.isnan() & s.isnan())).all()))
-            rec.check(same, "mutated:" + case["name"].split(".")[-1], "%s changed its tensor argument #%d" % (case["name"], i))
+        for i, (a, s) in enumerate(zip(targs, snaps)):
+            for cur, old in zip(_parts(a), s):
+                same = cur.shape == old.shape and (torch.equal(cur, old) or bool(((cur == old) | (cur.isnan() & old.isnan())).all()))
+                rec.check(same, "mutated:" + case["name"].split(".")[-1], "%s changed its tensor argument #%d" % (case["name"], i))
+        if err is not None:
+            # every table entry works on the unchanged tree for the generated (valid) arguments: a raise is a failure, not a skip
+            rec.label("call_raised:%s:%s" % (case["name"], type(err).__name__))
+            with rec.sut("table call " + case["name"]):
+                raise err
 
 
 # ------------------------------------------------------------------------------------
@@ -587,6 +887,35 @@ _PATCHED = [("torch.autograd.forward_ad", "make_dual"), ("torch._functorch.eager
             ("torch._functorch.vmap", "_add_batch_dim")]
 _ORIG = {(m, n): getattr(importlib.import_module(m), n) for m, n in _PATCHED}
 EXC = {"RuntimeError": RuntimeError, "ValueError": ValueError, "KeyError": KeyError, "ZeroDivisionError": ZeroDivisionError, "none": None}
+# where the fault happens: a user `raise` between ops / inside a pypose op / in the backward (vjp) phase
+WHERE = ("user", "op_assert", "op_shape", "op_type", "backward")
+WHERE_DRAW = ("user", "user", "user", "backward", "backward", "op_assert", "op_shape", "op_type")      # sampling weights
+OP_FAULT = {"op_assert": AssertionError,     # X.Act(p) with p.shape[-1] == 5: `assert` inside *Type.Act
+            "op_shape": RuntimeError,        # X @ Y with lshapes (2,3) and (4,): torch.broadcast_shapes inside broadcast_inputs
+            "op_type": AttributeError}       # Log of a Lie algebra element: LieType.Log
+
+
+def _bwd_fault(exc):
+    class F(torch.autograd.Function):
+        generate_vmap_rule = True
+
+        @staticmethod
+        def forward(x):
+            return x * 2.0
+
+        @staticmethod
+        def setup_context(ctx, inputs, output):
+            return
+
+        @staticmethod
+        def backward(ctx, g):
+            if exc is not None:
+                raise exc("injected fault in the backward pass")
+            return g * 2.0
+    return F
+
+
+_BWD = {k: _bwd_fault(v) for k, v in EXC.items()}
 
 
 class Restore(Sub):
@@ -595,27 +924,44 @@ class Restore(Sub):
 
     def strategy(self, tier):
         return st.fixed_dictionaries({
-            "ltype": st.sampled_from(R.GROUPS), "k": st.integers(0, 5), "exc": st.sampled_from(sorted(EXC)),
+            "ltype": st.sampled_from(R.GROUPS), "k": st.integers(0, 5), "exc": st.sampled_from(sorted(EXC)), "where": st.sampled_from(WHERE_DRAW),
             "mode": st.sampled_from(("retain", "pp_jacrev", "nested", "repeat", "torch_jacrev_in_retain")), "seed": st.integers(0, 10 ** 6)})
 
     def oracle(self, case, rec):
         lt, k, exc, mode = case["ltype"], case["k"], EXC[case["exc"]], case["mode"]
+        where = case.get("where", "user")
         rs = np.random.RandomState(case["seed"])
         X = _rand_group(lt, [1], rs, "float64")
         p = torch.tensor(rs.randn(1, 3))
+        jac = mode in ("pp_jacrev", "torch_jacrev_in_retain")
+        expected = OP_FAULT.get(where, exc)
 
         def body(x):
             y = x
             for i in range(k):
                 y = y @ x if i % 2 == 0 else y.Inv()
-            if exc is not None:
+            if where == "user" and exc is not None:
                 raise exc("injected fault after %d ops" % k)
-            return y.Act(p)
+            if where == "op_assert":
+                return y.Act(torch.zeros(1, 5, dtype=torch.float64))
+            if where == "op_shape":
+                return (y @ _rand_group(lt, [2, 3], rs, "float64")) @ _rand_group(lt, [4], rs, "float64")
+            if where == "op_type":
+                return y.Log().Log()
+            out = y.Act(p)
+            if where == "backward":
+                out = _BWD[case["exc"]].apply(out)
+                if not jac:                  # no transform runs a backward pass here: do it with plain autograd inside the context
+                    out.sum().backward()
+            return out
+
+        def arg():
+            return X if (jac or where != "backward") else X.clone().requires_grad_(True)
 
         def run():
             if mode == "retain":
                 with pp.retain_ltype():
-                    body(X)
+                    body(arg())
             elif mode == "pp_jacrev":
                 pp.func.jacrev(body)(X)
             elif mode == "torch_jacrev_in_retain":
@@ -624,29 +970,31 @@ class Restore(Sub):
             elif mode == "nested":
                 with pp.retain_ltype():
                     with pp.retain_ltype():
-                        body(X)
+                        body(arg())
             else:
                 for _ in range(3):
                     try:
                         with pp.retain_ltype():
-                            body(X)
+                            body(arg())
                     except Exception:
                         pass
                 with pp.retain_ltype():
-                    body(X)
+                    body(arg())
         raised = None
         try:
             run()
         except Exception as e:
             raised = e
-        if exc is not None:
-            rec.check(raised is not None and isinstance(raised, exc), "fault_swallowed", "the injected %s did not propagate (got %r)" % (case["exc"], raised))
-        rec.label(mode, case["exc"])
+        if expected is not None:
+            rec.check(raised is not None and isinstance(raised, expected), "fault_swallowed", "the %s fault (%s) did not propagate out of %s (got %r)" % (where, expected.__name__, mode, raised))
+        else:
+            rec.check(raised is None, "raises_without_fault", "no fault injected, but %s raised %r" % (mode, raised))
+        rec.label(mode, case["exc"] if where in ("user", "backward") else expected.__name__, "where:" + where)
         if k >= 1:
-            rec.nt((mode, case["exc"], k, lt))
+            rec.nt((mode, case["exc"], k, lt, where))
         for (m, nme), orig in _ORIG.items():
             cur = getattr(importlib.import_module(m), nme)
-            if not rec.check(cur is orig, "not_restored:" + nme, "after %s with %s: %s.%s is %r, not the original function" % (mode, case["exc"], m, nme, cur)):
+            if not rec.check(cur is orig, "not_restored:" + nme, "after %s with a %s fault (%s): %s.%s is %r, not the original function" % (mode, where, getattr(expected, "__name__", "none"), m, nme, cur)):
                 setattr(importlib.import_module(m), nme, orig)      # repair so later cases are independent
         t = torch.tensor([0.3, -0.7], dtype=torch.float64)
         J = torch.func.jacrev(lambda v: v.sin())(t)
@@ -658,8 +1006,21 @@ SUBS = [BroadcastBinary(), BroadcastUnary(), Handled(), HandledTable(), NoMutate
 
 def selftest():
     assert len(shapes(2)) == 21 and len(shapes(3)) == 85
+    assert len(pairs(2)) == 231 and len(pairs(3)) == 2479
+    # quick = rank<=2 box x 4 types + the rank-3 sample; thorough = the whole box x 4 types
+    b = BroadcastBinary()
+    q = list(b.cases("quick"))
+    assert len(q) == 231 * 4 + sum(R3_QUICK) and len(list(b.cases("thorough"))) == 2479 * 4
+    assert all(max(len(c["sx"]), len(c["sy"])) == 3 for c in q[231 * 4:])
+    u = BroadcastUnary()
+    assert len(list(u.cases("quick"))) == 21 * 8 + 64 * 2 and len(list(u.cases("thorough"))) == 85 * 8
+    assert {tuple(c["shape"]) for c in u.cases("quick")} == set(shapes(3))
     # the item-wise oracle itself broadcasts like torch
     rs = np.random.RandomState(0)
     X = _rand_group("SE3", [2, 1], rs, "float64"); Y = _rand_group("SE3", [3], rs, "float64")
     items = _itemwise(lambda a, b: a @ b, [2, 3], (X, Y))
     assert len(items) == 6 and tuple(items[0].shape) == (7,)
+    # reference items for an empty batch have the operands' types
+    pr = _protos((X, torch.zeros(0, 3)), rs, "float64")
+    assert pr[0].ltype == pp.SE3_type and tuple(pr[0].shape) == (7,) and tuple(pr[1].shape) == (3,)
+    assert tuple(_ref0(("selftest",), lambda x, p: x.Act(p), (X, torch.zeros(0, 3)), "float64").shape) == (3,)
